@@ -29,5 +29,7 @@ def obligations(tier):
         Ob('E.crash.u', 'E', 'crash indices on an unencrypted repository', '5 x 14 x 2 = 140', [F['sn'], F['del'], F['cl']], module=H, func='e_crash_unenc', timeout=900, shards=2),
         Ob('E.local', 'E', 'crash inside Local.upload/upload_stream: no partial object or *.tmp observable, old object kept until the new one is complete',
            '2 ops x 8 crash points x with/without previous object x 4 sizes = 128', [F['up'], F['us'], F['dt'], F['ls']], module=H, func='e_local_crash', timeout=600),
+        Ob('E.two', 'E', 'two threads of one process stream an object to the same name (steered through their read() calls: A reads i pieces, B reads j, A completes, kill): the tree at the kill and after both finish shows a complete payload, no leftovers, no error',
+           '3 (same / longer / shorter payload of B) x 4 sizes (1..5 pieces of 8 KiB) x 5 x 6 positions x with/without previous object = 720', [F['us'], F['dt']], module=H, func='e_two_uploaders', timeout=600, shards=2),
         Ob('E.tmp', 'E', 'temporary name: same directory, .tmp suffix, <= 255 bytes', 'last component length 1..255', [F['dt']], module=H, func='e_temp_name', timeout=600),
     ]
